@@ -147,6 +147,11 @@ def pel_specs():
         {'t': 'UD', 'comp': 0x2000, 'sub': 3, 'payload': b'  two\nlines \xff\n'.hex()},
         {'t': 'UD', 'comp': 0x2000, 'sub': 1, 'payload': b'{"v": 1e999}'.hex()},
         {'t': 'LP', 'name': 'lpar5', 'targets': [1]}]}
+    # built-in text whose last character is cut off in the middle of its UTF-8 sequence (no padding behind it): the lost
+    # bytes belong to this section of this log, whatever text is decoded next (o_bd_2a, bmc_undecodable, this log again)
+    specs['bmc_text_cut'] = {'creator': 'O', 'eid': 0x5000002A, 'sections': [
+        {'t': 'UD', 'comp': 0x2000, 'sub': 3, 'payload': b'fan 3 at 80 \xe2\x82'.hex()}, {'t': 'MT'},
+        {'t': 'UD', 'comp': 0x2000, 'sub': 3, 'payload': b'\xac trailing\nline \xf0\x9f'.hex()}]}
     # reference codes with an entry in the message registry (error details, hex-word descriptions), twice the same reason code
     regw = list(pelgen.SRC_DEFAULT_WORDS)
     specs['reg_2001_a'] = {'creator': 'O', 'eid': 0x50000020, 'sections': [{'t': 'PS', 'ascii': 'BD8D2001'.ljust(32), 'words': regw}]}
